@@ -206,7 +206,7 @@ PROPS = {
         rule=HIST_RULE + "; block summaries fed to the tracker; limits 1,2,3,5,total,total+5,10^6; the schedule is judged on the three "
              "clauses with added_at/deleted_at computed from the slot history; genTTLs' lists compared with the reference TTL facts; "
              "the eviction loop compared with its Gallina mirror on the same TTL lists",
-        strength="P: subset/memory/completeness of the eviction-loop mirror for all well-formed TTL lists and all limits; V: genTTLs = reference TTL facts, loop = mirror",
+        strength="P: C15_ttls_are_exactly_the_reference_facts - the mirror of AddBlockSummary/genTTLs (backward walk with undoAdd/undoDel on positions) returns EXACTLY the reference TTL facts for every valid history up to 2^62 leaves, and never fails (C15_tracker_total); subset/memory/completeness of the eviction-loop mirror for all well-formed TTL lists and all limits; V: TTL mirror = genTTLs and eviction mirror = loop on every history; genTTLs = reference TTL facts; schedule clauses on the implementation",
         level_text="The eviction loop of GenerateCachingSchedule is mirrored in Gallina and the three clauses are proved for every "
                    "well-formed TTL input and every memory limit; that genTTLs produces exactly the TTL facts of the slot history and "
                    "that the Go loop equals the mirror are checked by the extracted oracle along random histories.",
